@@ -303,3 +303,20 @@ def wrapped_deny(a=DA, b=DB):
 def varkwo(a=DA, *rest, b=DB):
   rec('varkwo', a, *rest, b=b)
   return (a, rest, b)
+
+
+# ---- C10: classes registered through register / external_configurable with signature REQUIRED ----
+@gin.register(module='vw')
+class ReqReg:
+
+  def __init__(self, a, b=gin.REQUIRED):
+    rec('ReqReg', a, b)
+
+
+class _ReqExt:
+
+  def __init__(self, a, b=gin.REQUIRED):
+    rec('ReqExt', a, b)
+
+
+ReqExt = gin.external_configurable(_ReqExt, 'ReqExt', module='vw')
